@@ -22,6 +22,16 @@ def fmt_tree(t):
     return {p: (k, oct(m), d.decode("latin-1")[:300]) for p, (k, m, d, *_) in t.items()}
 
 
+NAME_LINE = re.compile(rb"^(?:--- |\+\+\+ |\*\*\* |Index: |diff |rename |copy |Prereq: )[^\n]*\x00", re.M)
+
+
+def nul_in_names(s):
+    """a NUL byte in a line that names a file: the program hands the name to the system as a C string (cut at the NUL), the
+    model keeps the byte - outside the model's domain (and outside what C12 quantifies over)"""
+    t = s["tree"]["p.diff"][2] if "p.diff" in s.get("tree", {}) else (s.get("stdin") or b"")
+    return bool(NAME_LINE.search(t))
+
+
 def l2_family(run_, exe, scns, judge, cls=None, compare=True, label="L2", **kw):
     """Runs every scenario; judge(scn, res) -> None | description of the property violation.
     Returns (bad, mism) lists of (scenario index, description, replay dict)."""
@@ -41,7 +51,7 @@ def l2_family(run_, exe, scns, judge, cls=None, compare=True, label="L2", **kw):
         d = judge(s, r)
         if d:
             bad.append((i, d, rep))
-        if compare and not s.get("no_model"):
+        if compare and not s.get("no_model") and not nul_in_names(s):
             mc, _, _ = l2.model_canon(ml)
             if mc != il:
                 rep2 = dict(rep, model=mc[:3000], impl_line=il[:3000])
